@@ -33,6 +33,8 @@ func VerifC02Pool() {
 	steps := verifapi.Param("steps", 2)
 	last := t
 	charged := new(big.Int)
+	tracked := false // does the client track the host, and with which recorded check-in
+	recorded := t
 	for k := 0; k < steps; k++ {
 		dt := verifapi.Dur(fmt.Sprint("dt", k))
 		verifapi.Assume(dt >= 0)
@@ -72,8 +74,23 @@ func VerifC02Pool() {
 		verifapi.Assert(gotHost.Cmp(want) == 0, "c02.pool.host-credited-what-client-paid")
 		verifapi.Assert(resp.Balance != nil && resp.Balance.Credit.Cmp(&after.Credit) == 0, "c02.pool.reply-balance-is-stored")
 		charged.Add(charged, got)
-		// C11 mapping: the host is fresh, so it is active iff reported now or tracked before; never invalid
-		verifapi.Assert(len(resp.InvalidPeers) == 0, "c11.pool.fresh-peer-not-invalid")
+		// C11 mapping: the host's check-in is recorded whenever the client reports it; a
+		// tracked host is invalid iff that recorded check-in is older than the window
+		if report {
+			tracked, recorded = true, now // the host checked in just now
+		}
+		age := int64(now.Sub(recorded))
+		if tracked && age < 120000000000 {
+			verifapi.Assert(len(resp.InvalidPeers) == 0, "c11.pool.fresh-peer-not-invalid")
+			verifapi.Assert(len(resp.ActivePeers) == 1, "c11.pool.tracked-fresh-peer-active")
+		} else if tracked && age > 120000000000 {
+			verifapi.Assert(len(resp.InvalidPeers) == 1 && len(resp.ActivePeers) == 0, "c11.pool.stale-record-declared-invalid")
+			tracked = false
+		} else if !tracked {
+			verifapi.Assert(len(resp.InvalidPeers) == 0 && len(resp.ActivePeers) == 0, "c11.pool.untracked-peer-not-listed")
+		} else {
+			tracked = len(resp.ActivePeers) == 1 // exactly on the edge: either way
+		}
 		for _, a := range resp.ActivePeers {
 			verifapi.Assert(a == uri, "c11.pool.active-peers-are-uris-of-tracked")
 		}
